@@ -1,6 +1,7 @@
 import Dhlldv.Lemmas.Basic
 import Dhlldv.Gen.Framework
 import Dhlldv.Lemmas.Select
+import Dhlldv.Lemmas.Slip
 import Mathlib.Tactic.FieldSimp
 import Mathlib.Tactic.Ring
 
@@ -72,6 +73,23 @@ theorem C05_concentration_bounds (Xi Cvt Cvb : ℝ) (hC : 0 < Cvt) (hb : 0 < Cvb
   · rw [one_div, inv_mul_eq_div, div_le_iff₀ hx]
     have : Cvt / Cvb * Cvb = Cvt := by field_simp
     nlinarith
+
+/-- lower half of the slip-ratio clause, for ALL arguments: below the bed concentration the slip ratio is strictly positive (it is at least the
+three-layer-model slip (1 − Cvr)·exp(…): convex combination with weight f ∈ [0,1] of max(·, Xi_3LM) and Xi_3LM) -/
+theorem C05_slip_pos (vls Dp d eps nu rhol rhos Cvt : ℝ) (h : Cvt < 0.6) :
+    0 < framework.slip_ratio vls Dp d eps nu rhol rhos Cvt := by
+  apply slip_ratio_pos
+  have e : (Cst.Cvb : ℝ) = 0.6 := rfl
+  rw [e, div_lt_one (by norm_num)]; exact h
+
+/-- hence the derived spatial concentration exceeds the delivered one whenever the slip stays below 1 (no hypothesis on the lower side any more) -/
+theorem C05_Cvs_gt_Cvt (vls Dp d eps nu rhol rhos Cvt : ℝ) (hC : 0 < Cvt) (h : Cvt < 0.6)
+    (h1 : framework.slip_ratio vls Dp d eps nu rhol rhos Cvt < 1) :
+    Cvt < framework.Cvs_from_Cvt vls Dp d eps nu rhol rhos Cvt := by
+  rw [C05_derived_concentration]
+  have hp := C05_slip_pos vls Dp d eps nu rhol rhos Cvt h
+  have hx : 0 < 1 - framework.slip_ratio vls Dp d eps nu rhol rhos Cvt := by linarith
+  rw [one_div, inv_mul_eq_div, lt_div_iff₀ hx]; nlinarith
 
 /-! Non-vacuity -/
 example : (0:ℝ) < 0.2 ∧ (0:ℝ) < 0.6 ∧ (0:ℝ) ≤ 0.3 ∧ (0.3:ℝ) ≤ 1 - 0.2 / 0.6 := by norm_num
